@@ -45,6 +45,10 @@ def run_lemmas(ctx, prop):
             continue
         try:
             goals = fn(ctx)
+        except (KeyError, ValueError) as e:
+            # a lemma over source expressions whose statements are no longer found (e.g. after a refactoring): undecided, never an alarm
+            out.append({"name": f"lemma::{name}", "kind": "lemma", "result": "unknown", "text": "source expressions not found: " + repr(e), "time_s": 0, "backend": "-"})
+            continue
         except Exception as e:
             out.append({"name": f"lemma::{name}", "kind": "lemma", "result": "error", "text": repr(e), "time_s": 0, "backend": "-"})
             continue
